@@ -59,3 +59,24 @@ def send_block_arm(repo):
     ms[0].prefix = 'impl Peers {\n'; ms[-1].suffix = '\n}'
     return [p, pe.item(r'^pub\(crate\) struct BlocksRequest', attrs=True), pe.item(r'^impl BlocksRequest \{'),
             pe.method(r'^impl Peer \{', 'add_block', wrap='impl Peer')] + ms
+
+
+def last_n_selection(repo):
+    """The block of SendLastStateProofProcess::execute that selects the remembered reorg / last-N headers, wrapped as a method (the text itself is verbatim)."""
+    import re
+    from extract import Source, Piece, match_brace, ExtractError
+    src = Source(repo, SLSP)
+    a = re.search(r'^[ \t]*let reorg_last_headers = headers\[\.\.reorg_count\]', src.src, re.M)
+    m = re.search(r'let last_headers = match last_n_count\.cmp\(&last_n_blocks\) \{', src.src)
+    if not a or not m or m.start() < a.start():
+        raise ExtractError('last-N selection block not found in %s' % SLSP)
+    j = src.src.index('{', m.end() - 1)
+    e = match_brace(src.src, j)
+    if src.src[e + 1] != ';':
+        raise ExtractError('last-N selection: unexpected end of the match statement')
+    body = src.src[a.start():e + 2]
+    p = Piece(src, body, src.src.count('\n', 0, a.start()) + 1, 'SendLastStateProofProcess::execute / selection of the remembered headers')
+    p.prefix = ('impl SendLastStateProofProcess {\n    pub fn select(&self, headers: &[HeaderView], reorg_count: usize, sampled_count: usize, last_n_count: usize, '
+                'last_n_blocks: usize, peer_state: &PeerState, original_request: &ProveRequest) -> Status {\n')
+    p.suffix = '\n        unsafe { OUT = Some((reorg_last_headers, last_headers)); }\n        Status::ok()\n    }\n}'
+    return [p, src.item(r'^pub\(crate\) fn check_continuous_headers')]
